@@ -4,9 +4,18 @@ Oracle (DESIGN.md C13): parameter gradients = the n_b-point Gauss-Legendre rule 
 else the forward n) applied to df/dtheta — a differentiable plain-torch sum over numpy's nodes; limit gradients by
 the Leibniz rule (+f(xu), -f(xl)); second order by differentiating those reference expressions (Leibniz again for
 the limits).  n is kept small and != 100 so that a lost option changes the result by many orders above tolerance.
+
+Caller-supplied quadrature rules (`method` may be a callable `method(fcn, xl, xu, params, **options)`): the forward and / or
+the backward method (bck_options["method"]) may be a composite trapezoid / midpoint / Simpson rule given as a plain function, a
+callable object or a functools.partial with its option bound.  The backward rule is resolved as the statement says: the method
+named in bck_options, otherwise the forward one; every option from bck_options, otherwise from the forward call, otherwise the
+rule's own default.  The reference is THAT rule (same nodes and weights) applied to df/dtheta - at 2..8 points far away from any
+Gauss-Legendre value, so a method that is lost, replaced or given the wrong options on the way to the backward quadrature is
+visible by VALUE at first and second order.
 """
 from __future__ import annotations
 
+import functools
 import math
 
 import numpy as np
@@ -19,7 +28,10 @@ from pbt.harness import Task, ok, violation, discard, xt_call
 PID = "C13"
 RULE = ("(optionally piecewise through Python control flow on x: on one side of a point inside the interval the integrand does not use c) "
         "integrand f(x;a,c) = scale * c_j sin(a_j x + j) (x envelope exp(-x^2/2) for infinite limits), output scalar/vector/tuple; "
-        "n in 2..12, bck_options absent or n_b != n; limits: python float / tensor / tensor requiring grad / infinite; "
+        "forward method: Gauss-Legendre n in 2..12 (named by default) or a CALLER-SUPPLIED rule (composite trapezoid / midpoint / Simpson, option npt in 2..8; "
+        "given as function / callable object / functools.partial with npt bound and no forward option); bck_options absent, n_b != n, only the rule's option "
+        "(npt_b != npt: forward callable with that option), naming 'leggauss' (with n_b, or without: documented default n=100) or naming another "
+        "caller-supplied rule (with its npt; without only when the forward method is Gauss-Legendre: the rule's default npt=3); limits: python float / tensor / tensor requiring grad / infinite; "
         "function kind from pbt/gen.py (pure, nn.Module, nested, EditableModule incl. containers, siblings) with optional unused "
         "tensor (explicit or object-held) and non-tensor parameter; which leaves require grad; first and second order; "
         "history of backward passes through the ONE forward graph (single pass; or 2-3 passes with retain_graph: plain then "
@@ -28,14 +40,20 @@ RULE = ("(optionally piecewise through Python control flow on x: on one side of 
         "reference, second order is taken from every graph-recording pass after all passes have run. "
         "Non-trivial = at least one leaf or limit requires grad and its reference gradient is non-zero; distinct by canonical case.")
 ASSUMPTIONS = [
-    "float64 only; tolerance 1e3*n*eps*scale of the summed absolute terms",
+    "float64 only; tolerance 1e3*N*eps*scale of the summed absolute terms (N = number of nodes of the backward rule)",
     "an infinite limit is never asked for a gradient itself",
     "the reference n_b-point rule uses numpy.polynomial.legendre.leggauss nodes/weights",
+    "a callable method is called as method(fcn, tl, tu, params, **options) with tensor limits (atan-transformed when infinite) and returns the weighted sum; "
+    "the caller's rules accept and ignore options they do not know (as leggauss does); the reference applies the same nodes/weights to the derivative integrand",
+    "backward rule = method named in bck_options else the forward method; each option = bck_options' value else the forward call's else the rule's default "
+    "(leggauss n=100, caller's rules npt=3); a second caller-supplied rule named in bck_options while the forward is caller-supplied always comes with its own npt "
+    "(inheritance of the forward's npt by ANOTHER rule is not asserted)",
     "torch.autograd semantics: a graph kept with retain_graph may be back-propagated any number of times, with any cotangent, "
     "with or without create_graph, each pass giving the gradient of that cotangent's contraction (same tolerance per pass)",
 ]
 LEVEL_TEXT = ("Exploration against an independent differentiable re-derivation of the rule: at n in 2..12 the n-point and the 100-point "
-              "rules differ by many orders above tolerance, so option propagation, Leibniz terms and unused-tensor handling are all observable.")
+              "rules differ by many orders above tolerance, so option propagation, Leibniz terms and unused-tensor handling are all observable; "
+              "caller-supplied low-order rules (2..17 nodes) differ from every Gauss-Legendre value by 1e-1..1e-4, so method propagation is observable by value.")
 LEVEL_NOTE = "trusts torch autograd on the plain-torch reference sum and numpy's Gauss-Legendre nodes"
 TECHNIQUE = "Hypothesis property-based testing: differentiable reference model (autograd through an independent GL sum) + Leibniz oracle"
 
@@ -64,15 +82,116 @@ def make_core(out_kind, envelope, x0=None):
     return core
 
 
-def gl_rule(n, tl, tu):
-    nodes, w = np.polynomial.legendre.leggauss(n)
-    t = torch.tensor(nodes, dtype=DT) * (0.5 * (tu - tl)) + 0.5 * (tu + tl)
-    wt = torch.tensor(w, dtype=DT) * (0.5 * (tu - tl))
-    return t, wt
+NPT_DEFAULT = 3     # default of the option `npt` of the caller-supplied rules
+N_DEFAULT = 100     # documented default of leggauss' option `n`
+
+
+def gl_rule(rule, tl, tu):
+    """nodes and weights on [tl, tu] of rule = n (int: n-point Gauss-Legendre) or [name, npt] (caller-supplied composite rule:
+    'trap' npt points, 'mid' npt cells, 'simp' npt panels = 2 npt + 1 points)"""
+    if isinstance(rule, int):
+        nodes, w = np.polynomial.legendre.leggauss(rule)
+        t = torch.tensor(nodes, dtype=DT) * (0.5 * (tu - tl)) + 0.5 * (tu + tl)
+        wt = torch.tensor(w, dtype=DT) * (0.5 * (tu - tl))
+        return t, wt
+    name, k = rule
+    tl = torch.as_tensor(tl, dtype=DT).detach().reshape(())
+    tu = torch.as_tensor(tu, dtype=DT).detach().reshape(())
+    if name == "trap":
+        u = torch.arange(k, dtype=DT) / (k - 1)
+        w = torch.ones(k, dtype=DT) / (k - 1)
+        w[0] = w[-1] = 0.5 / (k - 1)
+    elif name == "mid":
+        u = (torch.arange(k, dtype=DT) + 0.5) / k
+        w = torch.ones(k, dtype=DT) / k
+    elif name == "simp":
+        u = torch.arange(2 * k + 1, dtype=DT) / (2 * k)
+        w = torch.full((2 * k + 1,), 2.0, dtype=DT)
+        w[1::2] = 4.0
+        w[0] = w[-1] = 1.0
+        w = w / (6 * k)
+    else:
+        raise ValueError(name)
+    return tl + u * (tu - tl), w * (tu - tl)
+
+
+def nnodes(rule):
+    return rule if isinstance(rule, int) else {"trap": rule[1], "mid": rule[1], "simp": 2 * rule[1] + 1}[rule[0]]
+
+
+def rule_str(rule):
+    return "leggauss(n=%d)" % rule if isinstance(rule, int) else "%s(npt=%d)" % tuple(rule)
+
+
+class _RuleObject:
+    """a caller-supplied quadrature rule given as a callable object"""
+
+    def __init__(self, name, log):
+        self.name, self.log = name, log
+
+    def __call__(self, fcn, xl, xu, params, npt=NPT_DEFAULT, **unused):
+        self.log.append([self.name, int(npt)])
+        t, w = gl_rule([self.name, int(npt)], xl, xu)
+        res = w[0] * fcn(t[0], *params)
+        for i in range(1, t.numel()):
+            res = res + w[i] * fcn(t[i], *params)
+        return res
+
+
+def make_method(name, form, bound, log):
+    """the rule `name` as the kind of callable `form`: function / callable object / functools.partial with npt bound"""
+    obj = _RuleObject(name, log)
+    if form == "obj":
+        return obj
+
+    def rule_function(fcn, xl, xu, params, npt=NPT_DEFAULT, **unused):
+        return obj(fcn, xl, xu, params, npt=npt)
+    if form == "func":
+        return rule_function
+    if form == "partial":
+        return functools.partial(rule_function, npt=bound)
+    raise ValueError(form)
+
+
+def resolve(case, log):
+    """(keyword arguments of the forward quad call, forward rule, backward rule the statement asks for)"""
+    fwd, bck = case.get("fwd"), case.get("bck")
+    if fwd:
+        bound = fwd["form"] == "partial"
+        kwargs = {"method": make_method(fwd["rule"], fwd["form"], fwd["npt"], log)}
+        fopts = {} if bound else {"npt": fwd["npt"]}
+        fmeth, fdef = fwd["rule"], {"npt": fwd["npt"] if bound else NPT_DEFAULT}
+    else:
+        kwargs, fopts, fmeth, fdef = {}, {"n": case["n"]}, "leggauss", {"n": N_DEFAULT}
+    kwargs.update(fopts)
+    bopts = {}
+    bmeth, bdef = fmeth, fdef
+    if bck:
+        if bck.get("method") == "leggauss":
+            bopts["method"] = "leggauss"
+            bmeth, bdef = "leggauss", {"n": N_DEFAULT}
+        elif bck.get("method"):
+            bound = bck["form"] == "partial"
+            bopts["method"] = make_method(bck["method"], bck["form"], bck.get("npt"), log)
+            bmeth, bdef = bck["method"], {"npt": bck["npt"] if bound else NPT_DEFAULT}
+        if bck.get("n") is not None:
+            bopts["n"] = bck["n"]
+        if bck.get("npt") is not None and not (bck.get("method") not in (None, "leggauss") and bck["form"] == "partial"):
+            bopts["npt"] = bck["npt"]
+    elif case.get("nb"):
+        bopts["n"] = case["nb"]
+    if bopts or (bck is not None):
+        kwargs["bck_options"] = bopts
+    eff = dict(bdef)
+    eff.update({k: v for k, v in fopts.items() if k != "method"})
+    eff.update({k: v for k, v in bopts.items() if k != "method"})
+    frule = case["n"] if fmeth == "leggauss" else [fmeth, fwd["npt"]]
+    brule = int(eff["n"]) if bmeth == "leggauss" else [bmeth, int(eff["npt"])]
+    return kwargs, frule, brule
 
 
 def ref_integral(core, eff, scale, n, xlv, xuv, W):
-    """<W, n-point rule of f> as a differentiable function of eff (limits are plain floats)"""
+    """<W, rule n of f> as a differentiable function of eff (limits are plain floats)"""
     if math.isinf(xlv) or math.isinf(xuv):
         t, wt = gl_rule(n, math.atan(xlv), math.atan(xuv))
         xs = torch.tan(t)
@@ -117,13 +236,25 @@ def grads_or_zero(y, xs, create_graph=False):
     return [torch.zeros_like(x) if g is None else g for g, x in zip(gs, xs)]
 
 
+def bck_label(case):
+    b = case.get("bck")
+    if b is None:
+        return "nb" if case.get("nb") else "same"
+    if b.get("method") == "leggauss":
+        return "leggauss" if b.get("n") is not None else "leggauss_default"
+    if b.get("method"):
+        return "callable/" + b["form"] + ("" if b.get("npt") is not None else "_own_default")
+    return "opts"
+
+
 def run_case(case):
     from xitorch.integrate import quad
     torch.manual_seed(0)
     g = gen.seeded(case["seed"])
     m = case["m"]
     n = case["n"]
-    nb = case["nb"] or n
+    calls = []          # [rule, npt] of every call of a caller-supplied rule
+    kwargs, frule, nb = resolve(case, calls)        # nb: the backward rule (int n_b: Gauss-Legendre; [name, npt]: caller's rule)
     spec = case["spec"]
     out_kind = case["out"]
     inf = float("inf")
@@ -154,14 +285,13 @@ def run_case(case):
     extra = [info["unused"]] if info["unused"] is not None else []
     wrt = diff_leaves + limits_g + extra
     labels = ["kind=" + spec["kind"], "out=" + out_kind, "xl=" + case["xlform"] + ("_inf" if math.isinf(xlv) else ""),
-              "xu=" + case["xuform"] + ("_inf" if math.isinf(xuv) else ""), "bck=" + ("nb" if case["nb"] else "same"),
+              "xu=" + case["xuform"] + ("_inf" if math.isinf(xuv) else ""), "bck=" + bck_label(case),
+              "fwd=" + ("leggauss" if not case.get("fwd") else case["fwd"]["rule"] + "/" + case["fwd"]["form"]),
+              "bckrule=" + ("leggauss" if isinstance(nb, int) else "callable") + ("_same" if nb == frule else ""),
               "order=%d" % case["order"], "unused=%s" % spec.get("unused"), "nleafgrad=%d" % len(diff_leaves), "piecewise=%s" % (x0 is not None)]
     if not wrt:
         return discard("nothing_to_differentiate", labels)
 
-    kwargs = {"n": n}
-    if case["nb"]:
-        kwargs["bck_options"] = {"n": case["nb"]}
     res = xt_call(quad, fcn, xl, xu, params=params, _where='forward', **kwargs)
     outs = (res,) if isinstance(res, torch.Tensor) else tuple(res)
     W = [torch.randn((o.numel(),), generator=g, dtype=DT) for o in outs]
@@ -208,9 +338,9 @@ def run_case(case):
             sc = float(rk.abs().max())
             nz = nz or sc > 0
             err = float((gk0.detach() - rk.detach()).abs().max())
-            if not err <= 1e-9 * (1 + sc) * nb:
-                return violation("fit_grad2", "Gauss-Newton second-order term w.r.t. leaf #%d: got %s ref %s (err %.3e); n=%d nb=%d" % (
-                    k, gk0.reshape(-1).tolist()[:4], rk.reshape(-1).tolist()[:4], err, n, nb), labels)
+            if not err <= 1e-9 * (1 + sc) * nnodes(nb):
+                return violation("fit_grad2", "Gauss-Newton second-order term w.r.t. leaf #%d: got %s ref %s (err %.3e); forward %s backward %s" % (
+                    k, gk0.reshape(-1).tolist()[:4], rk.reshape(-1).tolist()[:4], err, rule_str(frule), rule_str(nb)), labels)
         return ok(labels, nontrivial=nz)
     # ---------------- all backward passes of the history first, on the one graph of `loss`'s quad node ...
     Ws = {0: W}
@@ -228,7 +358,7 @@ def run_case(case):
     nonzero = False
     for k, ((wi, cg), got) in enumerate(zip(passes, gots)):
         v, nz = check_pass(got, Ws[wi], bool(cg), "" if k == 0 else "_rep", "pass %d of %d: " % (k + 1, len(passes)) if multi else "",
-                           core, eff, scale, n, nb, xlv, xuv, xl, xu, diff_leaves, limits_g, extra, wrt, g, labels, multi)
+                           core, eff, scale, frule, nb, xlv, xuv, xl, xu, diff_leaves, limits_g, extra, wrt, g, labels, multi)
         if v is not None:
             return v
         nonzero = nonzero or nz
@@ -239,7 +369,7 @@ def check_pass(got, W, second, sfx, where, core, eff, scale, n, nb, xlv, xuv, xl
     """one backward pass (cotangent W, graph-recording or not) against the reference: (violation or None, non-zero reference?)"""
     # ---------------- reference, first order
     I_b, mag = ref_integral(core, eff, scale, nb, xlv, xuv, W)
-    tol = 1e3 * nb * 2.3e-16 * (mag + 1.0)
+    tol = 1e3 * nnodes(nb) * 2.3e-16 * (mag + 1.0)
     ref_leaf = grads_or_zero(I_b, diff_leaves, create_graph=second) if diff_leaves else []
 
     def f_at(xt):
@@ -261,8 +391,8 @@ def check_pass(got, W, second, sfx, where, core, eff, scale, n, nb, xlv, xuv, xl
         nonzero = nonzero or sc > 0
         if not err <= tol * (1 + sc):
             what = "limit" if any(x is t_ for t_ in limits_g) else "leaf"
-            return violation("grad1_" + what + sfx, where + "first-order gradient w.r.t. %s #%d: got %s ref %s (err %.3e, tol %.3e); n=%d nb=%d" % (
-                what, k, gk0.detach().reshape(-1).tolist()[:4], rk.detach().reshape(-1).tolist()[:4], err, tol * (1 + sc), n, nb), labels), False
+            return violation("grad1_" + what + sfx, where + "first-order gradient w.r.t. %s #%d: got %s ref %s (err %.3e, tol %.3e); forward %s backward %s" % (
+                what, k, gk0.detach().reshape(-1).tolist()[:4], rk.detach().reshape(-1).tolist()[:4], err, tol * (1 + sc), rule_str(n), rule_str(nb)), labels), False
 
     if second:
         # L1 = sum <C_k, g_k> over leaves and limits
@@ -301,8 +431,8 @@ def check_pass(got, W, second, sfx, where, core, eff, scale, n, nb, xlv, xuv, xl
             sc = float(rk.detach().abs().max())
             if not err <= tol2 * (1 + sc):
                 what = "limit" if k >= nleaf else "leaf"
-                return violation("grad2_" + what + sfx, where + "second-order gradient w.r.t. %s #%d: got %s ref %s (err %.3e, tol %.3e); n=%d nb=%d" % (
-                    what, k, gk0.detach().reshape(-1).tolist()[:4], rk.detach().reshape(-1).tolist()[:4], err, tol2 * (1 + sc), n, nb), labels), False
+                return violation("grad2_" + what + sfx, where + "second-order gradient w.r.t. %s #%d: got %s ref %s (err %.3e, tol %.3e); forward %s backward %s" % (
+                    what, k, gk0.detach().reshape(-1).tolist()[:4], rk.detach().reshape(-1).tolist()[:4], err, tol2 * (1 + sc), rule_str(n), rule_str(nb)), labels), False
     return None, nonzero
 
 
@@ -312,6 +442,34 @@ def check_pass(got, W, second, sfx, where, core, eff, scale, n, nb, xlv, xuv, xl
 def case_st(draw, tier="quick"):
     n = draw(st.integers(2, 12))
     nb = draw(st.one_of(st.none(), st.integers(2, 12).filter(lambda k: k != n)))
+    # caller-supplied quadrature rules as forward and / or backward method
+    rules, kforms, npts = st.sampled_from(["trap", "mid", "simp"]), st.sampled_from(["func", "obj", "partial"]), st.integers(2, 8)
+    fwd = bck = None
+    if draw(st.sampled_from([False, False, False, True, True])):
+        fwd = {"rule": draw(rules), "npt": draw(npts), "form": draw(kforms)}
+        how = draw(st.sampled_from(["same", "same", "opts", "opts", "leggauss", "leggauss", "leggauss_default", "callable", "callable"]))
+        if how == "opts":
+            bck = {"npt": draw(npts.filter(lambda k: k != fwd["npt"]))}
+        elif how == "leggauss":
+            bck = {"method": "leggauss", "n": draw(st.integers(2, 12))}
+        elif how == "leggauss_default":
+            bck = {"method": "leggauss"}
+        elif how == "callable":
+            # another rule, or the same rule with another npt; bound in a partial only if the forward call passes no npt of its own
+            r2 = draw(rules)
+            bck = {"method": r2, "npt": draw(npts.filter(lambda k: (r2, k) != (fwd["rule"], fwd["npt"]))),
+                   "form": draw(kforms if fwd["form"] == "partial" else st.sampled_from(["func", "obj"]))}
+        nb = None
+    elif draw(st.sampled_from([False, False, False, True])):
+        # Gauss-Legendre forward, caller's rule for the backward quadrature (with its npt, bound in a partial, or its own default)
+        bck = {"method": draw(rules), "npt": draw(npts), "form": draw(kforms)}
+        if bck["form"] != "partial" and draw(st.sampled_from([False, False, True])):
+            bck["npt"] = None
+        nb = None
+    elif draw(st.sampled_from([False, False, False, False, True])):
+        # the backward method named explicitly
+        bck = {"method": "leggauss", "n": nb if nb is not None else n}
+        nb = None
     ends = draw(st.sampled_from(["finite", "finite", "finite", "upinf", "loinf", "bothinf"]))
     fl = st.floats(-2, 2, allow_subnormal=False, width=32)
     forms = ["float", "t", "tg", "tg"]
@@ -339,7 +497,7 @@ def case_st(draw, tier="quick"):
                                        [[0, True], [0, True]], [[0, True], [1, True]], [[0, True], [1, False]],
                                        [[0, False], [0, True], [1, True]]]))
     # effective tensor 0 is `a`, 1 is `c`
-    return {"n": n, "nb": nb, "m": draw(st.integers(1, 3)), "xl": xl, "xu": xu, "xlform": xlform, "xuform": xuform,
+    return {"n": n, "nb": nb, "fwd": fwd, "bck": bck, "m": draw(st.integers(1, 3)), "xl": xl, "xu": xu, "xlform": xlform, "xuform": xuform,
             "out": draw(st.sampled_from(["scalar", "vector", "tuple"])), "spec": spec,
             "req": [draw(st.sampled_from([True, True, False])), draw(st.sampled_from([True, True, False]))],
             "order": order, "passes": passes, "seed": draw(st.integers(0, 2 ** 31 - 1)),
